@@ -40,7 +40,7 @@ Section PliFacts.
     assert (si_rows_ok len C xr = true) as Hok by (unfold si_rows_ok; guard_true).
     assert (divs_ok (si_rows_div len C xr) = true) as Hdiv by (unfold si_rows_div; divs_true).
     unfold tx. rewrite Hok, Hdiv. cbn [negb]. unfold si_rows.
-    first [ reflexivity | repeat f_equal; lia ].
+    first [ reflexivity | apply (f_equal (@Ok nat)); apply (f_equal (fun x => Nat.div x C)); lia ].
   Qed.
 
   Lemma st_rows_val len : tx (st_rows_ok len C xr) (st_rows_div len C xr) (st_rows len C xr) =
@@ -51,7 +51,7 @@ Section PliFacts.
     unfold tx. rewrite Hok, Hdiv. cbn [negb]. unfold st_rows.
     first [ reflexivity
           | apply (f_equal (@Ok nat)); rewrite (rows_fresh_eq C len HC);
-            first [ apply (rows_fresh_eq C len HC) | unfold seq_rows; repeat f_equal; lia ] ].
+            first [ apply (rows_fresh_eq C len HC) | unfold seq_rows; apply (f_equal (fun x => Nat.div x C)); lia ] ].
   Qed.
 
   Lemma write_seq_t_eq s : forall len rows cap i m,
@@ -71,6 +71,8 @@ Section PliFacts.
     unfold fill_tail_t, fill_tail.
     unfold si_f_lo_ok, si_f_lo_div, si_f_lo, si_f_hi_ok, si_f_hi_div, si_f_hi.
     rewrite !tx_true. cbn [rbind]. unfold range.
+    match goal with |- for_res ?l1 _ _ = for_res ?l2 _ _ =>
+      replace l1 with l2 by first [ reflexivity | f_equal; lia ] end.
     apply for_res_ext. intros i x _.
     unfold put_striped, si_f_row_ok, si_f_row_div, si_f_row, si_f_col_ok, si_f_col_div, si_f_col.
     rewrite !tx_div1. destruct (rows =? 0); reflexivity.
